@@ -190,6 +190,10 @@ func pureHandle(line string) string {
 }
 
 func pureWorkerMain() {
+	// the library's loggers are package variables set by InitLog*(); every real use creates a workflow first,
+	// which initialises them. Do the same here, or a request that reaches a Warning.Printf before any
+	// workflow-creating request panics on a nil logger (seen with VERIF_SEED=25).
+	sp.InitLogError()
 	// run in a private scratch directory: NewFileIP stats paths relative to the cwd
 	in := bufio.NewReaderSize(os.Stdin, 1<<20)
 	out := bufio.NewWriter(os.Stdout)
